@@ -25,7 +25,7 @@ CHECKS = {
          "Seeded pairs of real node histories with 0-100% of the gossip between them lost for good, followed by a real snapshot exchange A->B, B->A, both ways or into a fresh node; the receiver's listing must equal the visible part of the LWW merge of both nodes' entries (removals included), a fresh node must list what the sender lists, and after both directions the nodes agree; retained histories under coarse clocks (advancing every 2-4 calls, never equal on the two nodes) must agree after exchanging both ways.",
          "Per-node reference built from the broadcasts each node issued/received (relies on C09). Ties give no verdict.", "5/C10"),
  "C16": ("exploration", "table-lookup oracle over exhaustively enumerated credential files loaded by the real FileHandler, plus end-to-end CONNECTs",
-         "Every credential file of <=3 (quick) / <=4 (thorough) distinct users in every order with 2-field, 3-field and empty-mount-point lines (complete), seeded files of 4-6 entries, and the static handler (incl. candidates that split user+password elsewhere) are loaded by the real code; the empty store is a table too; every present, wrong, swapped and empty candidate and ten absent users with every stored password are authenticated and compared with an exact table lookup including the mount point.",
+         "Every credential file of <=3 (quick) / <=4 (thorough) distinct users in every order with 2-field, 3-field and empty-mount-point lines (complete), seeded files of 4-6 entries, and the static handler (incl. candidates that split user+password elsewhere) are loaded by the real code; the empty store is a table too; every present, wrong, swapped and empty candidate and ten absent users with every stored password are authenticated and compared with an exact table lookup including the mount point. Wiring: getAuthHandler of cmd/wasp (package main, reached by a driver injected with go test -overlay) is fed configurations with both stores' settings present; candidates of both stores are tried against the chosen provider.",
          "Second field of a line = hex SHA-256 of the password. User names distinct and CSV-safe.", "5/C16"),
  "C01": ("exploration", "reference-matcher oracle (MQTT 3.1.1 4.7 on level arrays) over exhaustively enumerated filter x topic pairs on the real trie, seeded histories on the replicated index, and end-to-end delivery multisets behind a sentinel barrier",
          "Trie: every valid filter of <=4 levels over {a,b,c,+,#,''} against every topic of <=4 levels over {a,b,c,''} (complete), filter sets reached by different orders and subscribe/unsubscribe/re-subscribe histories (all pairs in thorough). Index: ByPattern after every step of seeded Create/Delete histories, then at a node that joins by full-state exchange and after an echoed exchange and a second delivery of every broadcast; Iterate must list exactly the active set. End to end: per-session multisets of uniquely tagged publishes compared with one-copy-per-matching-filter after a causal barrier.",
